@@ -4,3 +4,12 @@ import Resvg.Props.C01
 #print axioms Resvg.Props.C01.C01_nodes_bounded
 #print axioms Resvg.Props.C01.C01_build_nodes_bounded
 #print axioms Resvg.Props.C01.C01_href_iter_terminates
+#print axioms Resvg.Props.C01.rb
+#print axioms Resvg.Props.C01.quadA_bound
+#print axioms Resvg.Props.C01.quadB_bound
+#print axioms Resvg.Props.C01.prod_bound
+#print axioms Resvg.Props.C01.absOf
+#print axioms Resvg.Props.C01.C01_stroker_quad_intermediates_bounded
+#print axioms Resvg.Props.C01.C01_stroke_limit_below_f32_max
+#print axioms Resvg.Props.C01.C01_stroke_guard_in_place
+#print axioms Resvg.Props.C01.C01_unguarded_quad_overflows
